@@ -110,9 +110,19 @@ func (u *union) Parse(ctx *parseContext, parent reflect.Value) (out []reflect.Va
 		return nil, err
 	}
 	for i := range vals {
-		vals[i] = maybeRef(u.members[i], vals[i]).Convert(u.typ)
+		vals[i] = maybeRef(u.memberFor(vals[i].Type()), vals[i]).Convert(u.typ)
 	}
 	return vals, nil
+}
+
+// memberFor returns the union member, as registered with Union(), that produced a value of type t.
+func (u *union) memberFor(t reflect.Type) reflect.Type {
+	for _, m := range u.members {
+		if m == t || (m.Kind() == reflect.Ptr && m.Elem() == t) {
+			return m
+		}
+	}
+	return t
 }
 
 // @@
